@@ -7,6 +7,7 @@ CONSTANTS
   Stride = 1
   CheckDef = FALSE
 INVARIANT ThDef
+INVARIANT ThSort
 INVARIANT ThShape
 INVARIANT ThArea
 INVARIANT ThGrid
